@@ -1469,6 +1469,229 @@ theorem round_robin_decode_never_panics {α} (s : RoundRobin.RR α) (hne : s.dec
     rrLoopChecked s.decs.length s.decs s.seq none ≠ .panic := by
   rw [round_robin_never_panics _ _ _ _ hne]; simp
 
+/-! ### use after error: the JSON targeter's mutex, exhaustion is final -/
+
+/-- **Every path through a call of the JSON targeter releases the reader's mutex**: a call that finds
+the mutex free returns — a target, a decode error or `ErrNoTargets` — with the mutex free again,
+and returns exactly what C14's lock-free model `JSONTargets.call` computes. -/
+theorem json_targeter_releases_lock (cfg : JSONTargets.Cfg) (st : JT) (h : st.locked = false) :
+    jtCall cfg st = .returns (JSONTargets.call cfg st.src).1 { src := (JSONTargets.call cfg st.src).2, locked := false } := by
+  unfold jtCall JSONTargets.call
+  simp only [h, Bool.false_eq_true, ↓reduceIte]
+  cases hp : JSONTargets.popLine (st.src.length + 1) st.src with
+  | mk o rest => cases o <;> rfl
+
+/-- **The JSON targeter can be called again after any result and never blocks**: any number of
+calls on the shared reader all return (none waits for the mutex), with the results of
+`JSONTargets.calls`, and the mutex is free afterwards. -/
+theorem json_targeter_never_blocks (cfg : JSONTargets.Cfg) (n : Nat) : ∀ src : Bytes,
+    jtCalls (jtCall cfg) n { src := src, locked := false } =
+      some ((JSONTargets.calls cfg n src).1, { src := (JSONTargets.calls cfg n src).2, locked := false }) := by
+  induction n with
+  | zero => intro src; rfl
+  | succ n ih =>
+    intro src
+    simp only [jtCalls, JSONTargets.calls]
+    rw [json_targeter_releases_lock cfg _ rfl]
+    simp only [ih]
+
+/-- the decode step never answers `ErrNoTargets` (it answers eJSON / eNoMethod / eNoURL or a target):
+so `ErrNoTargets` always means that the reader is exhausted -/
+theorem aux_finish_not_notargets (cfg : JSONTargets.Cfg) (l : Bytes) : JSONTargets.finish cfg l ≠ .error JSONTargets.eNoTargets := by
+  unfold JSONTargets.finish
+  repeat' (first | split | simp [JSONTargets.eNoTargets, JSONTargets.eJSON, JSONTargets.eNoMethod, JSONTargets.eNoURL])
+
+/-- **Once it reported `ErrNoTargets`, it reports `ErrNoTargets` on every later call** (and returns
+at once: nothing is left to read). -/
+theorem json_targeter_error_again (cfg : JSONTargets.Cfg) (src : Bytes)
+    (h : (JSONTargets.call cfg src).1 = .error JSONTargets.eNoTargets) :
+    ∀ n, ∀ r ∈ (JSONTargets.calls cfg n (JSONTargets.call cfg src).2).1, r = .error JSONTargets.eNoTargets := by
+  have hfin := aux_finish_not_notargets cfg
+  have hrest : (JSONTargets.call cfg src).2 = [] := by
+    unfold JSONTargets.call at h ⊢
+    cases hp : JSONTargets.popLine (src.length + 1) src with
+    | mk o rest =>
+      rw [hp] at h
+      cases o with
+      | none =>
+        have := Vegeta.Proofs.TargeterLaws.popLine_none (src.length + 1) src (by omega) (by rw [hp])
+        rw [hp] at this; exact this
+      | some l => simp only [] at h; exact absurd h (hfin l)
+  rw [hrest]
+  have hnil : JSONTargets.call cfg [] = (.error JSONTargets.eNoTargets, []) := by
+    simp [JSONTargets.call, JSONTargets.popLine, JSONTargets.readLine]
+  intro n
+  induction n with
+  | zero => intro r hr; simp [JSONTargets.calls] at hr
+  | succ n ih =>
+    intro r hr
+    simp only [JSONTargets.calls, hnil, List.mem_cons] at hr
+    rcases hr with rfl | hr
+    · rfl
+    · exact ih r hr
+
+/-- **What the lock discipline excludes** (the change of seeds c16g / c02i): if end of input returned
+from inside the loop, with the mutex still held, the first call would still answer `ErrNoTargets` —
+and the next call would never return. -/
+theorem json_targeter_early_return_blocks (cfg : JSONTargets.Cfg) :
+    ∃ st1, jtCallEarlyReturn cfg { src := [], locked := false } = .returns (.error JSONTargets.eNoTargets) st1 ∧
+      st1.locked = true ∧ jtCalls (jtCallEarlyReturn cfg) 2 { src := [], locked := false } = none := by
+  refine ⟨{ src := [], locked := true }, ?_, rfl, ?_⟩
+  · simp [jtCallEarlyReturn, JSONTargets.popLine, JSONTargets.readLine]
+  · simp [jtCalls, jtCallEarlyReturn, JSONTargets.popLine, JSONTargets.readLine]
+
+/-- source facts: in `NewJSONTargeter` nothing returns between `rd.Lock()` and `rd.Unlock()`; the HTTP
+targeter's closure starts with `mu.Lock(); defer mu.Unlock()` (released on every path by `defer`) -/
+theorem facts_targeter_locks :
+    Vegeta.Extracted.c16JSONTargeterLockOrder = [ofAscii "rd.Lock()", ofAscii "<stmt>", ofAscii "rd.Unlock()"] ∧
+    Vegeta.Extracted.c16JSONTargeterReturnsWhileLocked = 0 ∧
+    Vegeta.Extracted.c16HTTPTargeterHead = [ofAscii "mu.Lock()", ofAscii "defer mu.Unlock()"] := by decide
+
+/-- **The HTTP targeter, once exhausted, stays exhausted**: after `ErrNoTargets` every later call
+answers `ErrNoTargets` again (C14's model; restated from `TargeterLaws.http_stable`). -/
+theorem http_targeter_error_again (cfg : HTTPTargets.Cfg) (st : HTTPTargets.St)
+    (h : (HTTPTargets.call cfg st).1 = .error HTTPTargets.eNoTargets) :
+    (HTTPTargets.call cfg (HTTPTargets.call cfg st).2).1 = .error HTTPTargets.eNoTargets := by
+  have hs := Vegeta.Proofs.TargeterLaws.http_stable cfg st (HTTPTargets.call cfg st).2
+  simp only [TargeterConc.httpSys] at hs
+  cases hc : HTTPTargets.call cfg st with
+  | mk o st' =>
+    rw [hc] at h hs
+    simp only [] at h; subst h
+    simp only [↓reduceIte, true_implies] at hs
+    cases hc2 : HTTPTargets.call cfg st' with
+    | mk o2 st2 =>
+      rw [hc2] at hs
+      simp only []
+      cases o2 with
+      | ok t => simp at hs
+      | panic => simp at hs
+      | error e =>
+        simp only [] at hs
+        split at hs
+        · rename_i he; rw [he]
+        · simp at hs
+
+/-! ### `startsWithHTTPMethod` is the language of `^[A-Z]+\s` -/
+
+theorem aux_afterUpper (t : Bytes) : HTTPTargets.afterUpper t = true ↔
+    ∃ m c rest, t = m ++ c :: rest ∧ (∀ x ∈ m, HTTPTargets.isUpper x = true) ∧ HTTPTargets.isReSpace c = true := by
+  induction t with
+  | nil =>
+    simp only [HTTPTargets.afterUpper, Bool.false_eq_true, false_iff]
+    intro ⟨m, c, rest, h, _⟩
+    cases m <;> simp at h
+  | cons a r ih =>
+    unfold HTTPTargets.afterUpper
+    by_cases ha : HTTPTargets.isUpper a = true
+    · simp only [ha, ↓reduceIte]
+      rw [ih]
+      constructor
+      · intro ⟨m, c, rest, h, hm, hc⟩
+        exact ⟨a :: m, c, rest, by simp [h], by intro x hx; simp at hx; rcases hx with rfl | hx; exact ha; exact hm x hx, hc⟩
+      · intro ⟨m, c, rest, h, hm, hc⟩
+        cases m with
+        | nil =>
+          simp at h; obtain ⟨rfl, rfl⟩ := h
+          -- an upper-case letter is not a space
+          exfalso
+          simp [HTTPTargets.isUpper, HTTPTargets.isReSpace] at ha hc
+          omega
+        | cons b m' =>
+          simp at h; obtain ⟨rfl, rfl⟩ := h
+          exact ⟨m', c, rest, rfl, fun x hx => hm x (by simp [hx]), hc⟩
+    · simp only [ha, Bool.false_eq_true, ↓reduceIte]
+      constructor
+      · intro hc; exact ⟨[], a, r, rfl, by simp, hc⟩
+      · intro ⟨m, c, rest, h, hm, hc⟩
+        cases m with
+        | nil => simp at h; obtain ⟨rfl, rfl⟩ := h; exact hc
+        | cons b m' =>
+          simp at h; obtain ⟨rfl, rfl⟩ := h
+          exact absurd (hm a (by simp)) ha
+
+/-- **`startsWithHTTPMethod` (C14's model) accepts exactly the language of the regexp `^[A-Z]+\s`**:
+one or more upper-case ASCII letters followed by one of `\t \n \f \r space` — for every byte
+string, with no index ever taken past the end: an empty line, a line of upper-case letters only
+(`GET`) and a line that starts with anything else are simply not matches. -/
+theorem starts_with_method_language (t : Bytes) : HTTPTargets.startsWithHTTPMethod t = true ↔
+    ∃ m c rest, t = m ++ c :: rest ∧ m ≠ [] ∧ (∀ x ∈ m, HTTPTargets.isUpper x = true) ∧ HTTPTargets.isReSpace c = true := by
+  cases t with
+  | nil =>
+    simp only [HTTPTargets.startsWithHTTPMethod, Bool.false_eq_true, false_iff]
+    intro ⟨m, c, rest, h, _⟩
+    cases m <;> simp at h
+  | cons a r =>
+    simp only [HTTPTargets.startsWithHTTPMethod, Bool.and_eq_true]
+    rw [aux_afterUpper]
+    constructor
+    · intro ⟨ha, m, c, rest, h, hm, hc⟩
+      exact ⟨a :: m, c, rest, by simp [h], by simp, by intro x hx; simp at hx; rcases hx with rfl | hx; exact ha; exact hm x hx, hc⟩
+    · intro ⟨m, c, rest, h, hne, hm, hc⟩
+      cases m with
+      | nil => contradiction
+      | cons b m' =>
+        simp at h; obtain ⟨rfl, rfl⟩ := h
+        exact ⟨hm a (by simp), m', c, rest, rfl, fun x hx => hm x (by simp [hx]), hc⟩
+
+example : HTTPTargets.startsWithHTTPMethod [71, 69, 84] = false ∧ HTTPTargets.startsWithHTTPMethod [] = false ∧
+    HTTPTargets.startsWithHTTPMethod [71, 69, 84, 32, 47] = true ∧ HTTPTargets.startsWithHTTPMethod [71, 69, 84, 9] = true := by decide
+
+/-! ### the bucket parser takes its brackets at the very ends -/
+
+/-- **An accepted bucket specification starts with `[` and ends with `]` — byte 0 and the last byte,
+no white space trimmed around the list** (so ` [0,1ms]`, `[0,1ms] `, a value of blanks only, are
+errors, not panics: `value[0]` / `value[len-1]` are the only indices taken, behind `len ≥ 2`). -/
+theorem buckets_brackets_at_the_ends (value : Bytes) (bs : List Int) (h : unmarshalText value = .ok bs) :
+    value.head? = some 91 ∧ value.getLast? = some 93 ∧ 2 ≤ value.length := by
+  unfold unmarshalText at h
+  split at h
+  · simp at h
+  · rename_i hlen
+    split at h
+    · rename_i rest hl
+      exact ⟨rfl, hl, by omega⟩
+    · simp at h
+
+example : unmarshalText [32, 32] = .error eBadBuckets ∧ unmarshalText [32, 91, 48, 93] = .error eBadBuckets ∧
+    unmarshalText [91, 48, 93, 32] = .error eBadBuckets ∧ unmarshalText [9, 10, 32, 13] = .error eBadBuckets := by decide
+
+/-! ### resolver addresses: total, one output per input -/
+
+/-- **Resolver address normalisation is total and keeps the list's shape**: for every list of byte
+strings it returns an error or exactly one normalised address per input, in order, each of them the
+input itself or the input with `:53` appended — nothing is rebuilt from host and port. (The
+definition is a plain structural recursion over the list, `normalizeAddr` has no loop at all: that is
+the termination proof.) -/
+theorem resolver_normalisation_total (as : List Bytes) :
+    (∃ e, normalizeAddrs as = .error e) ∨
+    (∃ out, normalizeAddrs as = .ok out ∧ out.length = as.length ∧
+      ∀ (i : Nat) (a : Bytes), as[i]? = some a → out[i]? = some (if a.contains 58 then a else a ++ [58, 53, 51])) := by
+  cases h : normalizeAddrs as with
+  | error e => exact Or.inl ⟨e, rfl⟩
+  | panic => exact absurd h (C19.normalizeAddrs_never_panics as)
+  | ok out =>
+    refine Or.inr ⟨out, rfl, ?_⟩
+    have hall := (C19.resolver_list as out).mp h
+    clear h
+    induction hall with
+    | nil => exact ⟨rfl, by intro i a h; simp at h⟩
+    | @cons a a' as' out' ha _ ih =>
+      obtain ⟨il, ig⟩ := ih
+      have hn := (C19.resolver_normalisation a a' ha).1
+      refine ⟨by simp only [List.length_cons, il], ?_⟩
+      intro i x hx
+      cases i with
+      | zero =>
+        simp only [List.getElem?_cons_zero, Option.some.injEq] at hx ⊢
+        subst hx; exact hn
+      | succ j =>
+        simp only [List.getElem?_cons_succ] at hx ⊢
+        exact ig j x hx
+
+example : normalizeAddrs [[49, 46, 50, 46, 51, 46, 52], [91, 58, 58, 49, 93, 58, 53, 51]] =
+    .ok [[49, 46, 50, 46, 51, 46, 52, 58, 53, 51], [91, 58, 58, 49, 93, 58, 53, 51]] := by decide
+
 end others
 
 end Vegeta.Props.C16
